@@ -130,6 +130,6 @@ def chunks(tier, seed):
             yield (d, cps)
         # the general C15 stream (no collectors needed here: they are above), thinned
         for i, c in enumerate(ec.gen_cases(tier, seed, with_collectors=True)):
-            if thorough or i % 4 == 0:
+            if i % (3 if thorough else 4) == 0:
                 yield c
     return ec.chunks_by_weight(gen())
